@@ -45,18 +45,35 @@ func nested(depth int) *tmpb.Test_Nested {
 
 func populate(depth int) *tmpb.Test {
 	counter++
-	t := &tmpb.Test{Int32Repeats: []int32{counter, counter + 1000}}
+	// Lists are long enough (11 elements) for an index written as an octal or hexadecimal
+	// literal (010, 0xa) to address a present element that differs from its decimal misreading.
+	t := &tmpb.Test{}
+	for i := int32(0); i < 11; i++ {
+		t.Int32Repeats = append(t.Int32Repeats, counter+1000*i)
+	}
 	if depth <= 0 {
 		return t
 	}
 	t.Nested = nested(depth - 1)
-	t.Repeats = []*tmpb.Test{populate(depth - 1), populate(depth - 1)}
+	t.Repeats = []*tmpb.Test{populate(depth - 1)}
+	for i := 0; i < 9; i++ {
+		t.Repeats = append(t.Repeats, populate(0))
+	}
+	t.Repeats = append(t.Repeats, populate(depth-1))
 	t.Strkeymap = map[string]*tmpb.Test_Nested{"a": nested(depth - 1), "b c": nested(depth - 1)}
 	t.Boolkeymap = map[bool]*tmpb.Test{true: populate(depth - 1)}
 	t.Int32Keymap = map[int32]*tmpb.Test{-1: populate(depth - 1), 7: populate(depth - 1)}
 	t.Int64Keymap = map[int64]*tmpb.Test{1 << 40: populate(depth - 1)}
 	t.Uint32Keymap = map[uint32]*tmpb.Test{1: populate(depth - 1), 4000000000: populate(depth - 1)}
 	t.Uint64Keymap = map[uint64]*tmpb.Test{1 << 63: populate(depth - 1)}
+	// keys whose octal / hexadecimal spelling (010, 0x10) reads as a different present key when
+	// misread as decimal
+	for _, k := range []int{8, 10, 16} {
+		t.Int32Keymap[int32(k)] = populate(0)
+		t.Int64Keymap[int64(k)] = populate(0)
+		t.Uint32Keymap[uint32(k)] = populate(0)
+		t.Uint64Keymap[uint64(k)] = populate(0)
+	}
 	return t
 }
 
@@ -88,7 +105,7 @@ func keyTexts(k protoreflect.MapKey, kind protoreflect.Kind, thorough bool) []st
 		out := []string{fmt.Sprint(v)}
 		if v >= 0 {
 			out = append(out, fmt.Sprintf("0x%x", v))
-			if thorough {
+			if thorough || v < 64 {
 				out = append(out, fmt.Sprintf("0%o", v))
 			}
 		}
@@ -96,6 +113,9 @@ func keyTexts(k protoreflect.MapKey, kind protoreflect.Kind, thorough bool) []st
 	default:
 		v := k.Uint()
 		out := []string{fmt.Sprint(v), fmt.Sprintf("0x%x", v)}
+		if thorough || v < 64 {
+			out = append(out, fmt.Sprintf("0%o", v))
+		}
 		return out
 	}
 }
@@ -139,12 +159,15 @@ func generate(md protoreflect.MessageDescriptor, m protoreflect.Message, depth i
 		switch {
 		case fd.IsList():
 			n := val.List().Len()
-			for _, idx := range []int{0, n - 1, n, 99} {
+			seenIdx := map[int]bool{}
+			for _, idx := range []int{0, 1, 8, n - 1, n, 99} {
 				idx := idx
-				if idx < 0 {
+				if idx < 0 || seenIdx[idx] {
 					continue
 				}
-				for _, it := range []string{fmt.Sprint(idx), fmt.Sprintf("0x%x", idx)} {
+				seenIdx[idx] = true
+				// the scanner's integer tokens: decimal, hexadecimal and octal (leading 0)
+				for _, it := range []string{fmt.Sprint(idx), fmt.Sprintf("0x%x", idx), fmt.Sprintf("0%o", idx)} {
 					q := genPath{text: p.text + "[" + it + "]", steps: append(append([]step(nil), p.steps...), step{"[" + it + "]", func(v protoreflect.Value) (protoreflect.Value, bool) {
 						if idx >= v.List().Len() {
 							return protoreflect.Value{}, false
@@ -152,7 +175,7 @@ func generate(md protoreflect.MessageDescriptor, m protoreflect.Message, depth i
 						return v.List().Get(idx), true
 					}})}
 					emit(q)
-					if idx < n && fd.Message() != nil {
+					if (idx == 0 || idx == n-1) && idx < n && fd.Message() != nil {
 						generate(fd.Message(), val.List().Get(idx).Message(), depth-1, thorough, q, false, emit)
 					}
 				}
@@ -299,14 +322,18 @@ func main() {
 				}
 				r.Validated()
 				if p.expectParseError {
-					if perr == nil {
-						viol("wrongly-typed-key-parsed", "a map key literal of the wrong type was accepted by the parser")
+					// A key literal of the wrong type addresses no element: the statement allows a
+					// parse error, or a path whose evaluation reports the element absent.
+					if perr == nil && verr == nil {
+						viol("wrongly-typed-key-returned-value", "a map key literal of the wrong type was parsed and evaluation returned a value")
 					}
-					r.Outcome("parse-error-expected")
-					return "parse error"
+					r.Outcome("wrongly-typed-key-refused")
+					return fmt.Sprint("wrong key", perr != nil, verr != nil)
 				}
 				if perr != nil {
-					viol("well-typed-path-rejected", "ParsePath rejects a well-typed path: "+firstLine(perr.Error()))
+					// "parsing either fails with an error or ...": a refusal is always allowed by
+					// the statement; it is only counted so that a vacuous run is visible.
+					r.Outcome("well-typed-path-refused-by-parser")
 					return "parse error"
 				}
 				// reference walk
